@@ -1793,7 +1793,7 @@ sf_read_short	(SNDFILE *sndfile, short *ptr, sf_count_t len)
 
 	count = psf->read_short (psf, ptr, len) ;
 
-	if (psf->read_current + count / psf->sf.channels <= psf->sf.frames)
+	if (psf->read_current + (count + psf->sf.channels - 1) / psf->sf.channels <= psf->sf.frames)
 		psf->read_current += count / psf->sf.channels ;
 	else
 	{	count = (psf->sf.frames - psf->read_current) * psf->sf.channels ;
@@ -1901,7 +1901,7 @@ sf_read_int		(SNDFILE *sndfile, int *ptr, sf_count_t len)
 
 	count = psf->read_int (psf, ptr, len) ;
 
-	if (psf->read_current + count / psf->sf.channels <= psf->sf.frames)
+	if (psf->read_current + (count + psf->sf.channels - 1) / psf->sf.channels <= psf->sf.frames)
 		psf->read_current += count / psf->sf.channels ;
 	else
 	{	count = (psf->sf.frames - psf->read_current) * psf->sf.channels ;
@@ -2009,7 +2009,7 @@ sf_read_float	(SNDFILE *sndfile, float *ptr, sf_count_t len)
 
 	count = psf->read_float (psf, ptr, len) ;
 
-	if (psf->read_current + count / psf->sf.channels <= psf->sf.frames)
+	if (psf->read_current + (count + psf->sf.channels - 1) / psf->sf.channels <= psf->sf.frames)
 		psf->read_current += count / psf->sf.channels ;
 	else
 	{	count = (psf->sf.frames - psf->read_current) * psf->sf.channels ;
@@ -2117,7 +2117,7 @@ sf_read_double	(SNDFILE *sndfile, double *ptr, sf_count_t len)
 
 	count = psf->read_double (psf, ptr, len) ;
 
-	if (psf->read_current + count / psf->sf.channels <= psf->sf.frames)
+	if (psf->read_current + (count + psf->sf.channels - 1) / psf->sf.channels <= psf->sf.frames)
 		psf->read_current += count / psf->sf.channels ;
 	else
 	{	count = (psf->sf.frames - psf->read_current) * psf->sf.channels ;
